@@ -171,6 +171,9 @@ struct SCase {
     rotations: usize,
     bound_q: usize,
     bound_t: usize,
+    /// another thread calls reopen_output() (holds the state lock over a scheduling point) while
+    /// the driver shuts down; the state lock is un-modelled (threads really block on it)
+    racing: bool,
 }
 fn sched_cases() -> Vec<SCase> {
     let mut v = Vec::new();
@@ -183,8 +186,22 @@ fn sched_cases() -> Vec<SCase> {
                 rotations: 3,
                 bound_q: 1,
                 bound_t: 3,
+                racing: false,
             });
         }
+    }
+    // shutdown() while another thread holds the state lock: when it returns, the cleanup is
+    // complete all the same
+    for (naming, clean) in [(NamingK::Numbers, CleanK::Log(1)), (NamingK::TimestampsDirect, CleanK::Gz(1))] {
+        let mut cfg = Cfg::rot(CritK::Size(LIMIT), naming, clean);
+        cfg.bg_cleanup = true;
+        v.push(SCase {
+            cfg,
+            rotations: 2,
+            bound_q: 2,
+            bound_t: 3,
+            racing: true,
+        });
     }
     v
 }
@@ -459,14 +476,19 @@ struct SObs {
 }
 
 fn sched_cfg() -> SchedCfg {
+    sched_cfg_for(false)
+}
+fn sched_cfg_for(racing: bool) -> SchedCfg {
     SchedCfg {
         ignore: vec!["flw_pool_pop", "flw_pool_push", "std_pool_pop", "std_pool_push", "std_lock", "set_max_level", "flush", "write"],
+        detect_real_blocking: racing,
+        nonblocking_locks: if racing { vec!["flw_state"] } else { vec![] },
         ..SchedCfg::default()
     }
 }
 
 fn sched_body(sc: SCase) -> Arc<dyn Fn(&Arc<Sched>) -> SObs + Send + Sync> {
-    Arc::new(move |_s: &Arc<Sched>| {
+    Arc::new(move |s: &Arc<Sched>| {
         // the driver itself is the logging thread; the cleanup thread registers when it is spawned
         let env = Env::in_current("c07s");
         let mut h = Hist::new(&env, sc.cfg.clone());
@@ -501,7 +523,19 @@ fn sched_body(sc: SCase) -> Arc<dyn Fn(&Arc<Sched>) -> SObs + Send + Sync> {
                 }
             }
         }
+        let racer = if sc.racing {
+            h.live.as_ref().map(|l| {
+                let h2 = l.handle.clone();
+                s.spawn("racer", move || {
+                    h2.reopen_output().ok();
+                    drop(h2);
+                })
+            })
+        } else {
+            None
+        };
         h.stop();
+        // (judged when shutdown() has returned; the racing thread is joined afterwards)
         let names = family::list_names(&env.dir);
         if res.is_ok() {
             res = match view(&env, &sc.cfg) {
@@ -510,6 +544,9 @@ fn sched_body(sc: SCase) -> Arc<dyn Fn(&Arc<Sched>) -> SObs + Send + Sync> {
                     .map_err(|(c, d)| (c.to_string(), d)),
                 Err((c, d)) => Err((c.to_string(), d)),
             };
+        }
+        if let Some(jh) = racer {
+            s.join(jh);
         }
         drop(h);
         SObs { result: res, names }
@@ -520,7 +557,7 @@ fn run_sched_unit(tier: &str, idx: usize, out: &mut Out) {
     let scs = sched_cases();
     let sc = scs[idx].clone();
     let bound = if tier == "quick" { sc.bound_q } else { sc.bound_t };
-    let cfg = sched_cfg();
+    let cfg = sched_cfg_for(sc.racing);
     let body = sched_body(sc.clone());
     let mut first_bad: Option<Violation> = None;
     let mut machinery: Option<String> = None;
@@ -652,7 +689,7 @@ fn replay(case: &Value) -> Vec<Violation> {
         let scs = sched_cases();
         let Some(sc) = scs.get(idx) else { return vec![] };
         let sch: Vec<usize> = case["schedule"].as_array().into_iter().flatten().filter_map(|x| x.as_u64().map(|n| n as usize)).collect();
-        let mut cfg = sched_cfg();
+        let mut cfg = sched_cfg_for(sc.racing);
         cfg.keep_log = true;
         let ex = sched::run_once(&cfg, &sch, Some(crate::hooks::VClock::new(crate::hooks::base_instant())), sched_body(sc.clone()));
         println!("replay C07 (background cleanup): cfg={:?} schedule={sch:?}", sc.cfg);
